@@ -135,7 +135,13 @@ func cmdCheck(args []string) int {
 	if *prop == "C13" {
 		run.obls = append(run.obls, v.globalWriteScan()...)
 	}
-	for _, o := range append(v.builtinObligations(), v.builtinFieldScan()...) {
+	bco, bcerrs := v.builtinCallObligations()
+	if *prop == "C11" {
+		for _, e := range bcerrs {
+			translationErrors = append(translationErrors, "exec.builtinFunctions: "+e)
+		}
+	}
+	for _, o := range append(append(v.builtinObligations(), v.builtinFieldScan()...), bco...) {
 		for _, q := range o.Props {
 			if q == *prop {
 				run.obls = append(run.obls, o)
